@@ -114,6 +114,9 @@ class JobModel:
         end = self.max_epochs
         if self.honour and MAXRES_ATTR in config:
             end = min(end, int(config[MAXRES_ATTR]))
+        ef = self.s.get("early_finish")
+        if ef and hfloat(self.table_seed, "earlyfin", hp_key(config, self.space_keys)) < ef["p"]:
+            end = min(end, max(ef["at"], start))
         if start > end:  # checkpoint already at/after the end: redo the last epoch (a script must report)
             start = end
         return start, end
